@@ -1,7 +1,7 @@
 """C15 -- leak reports: histories with a capturing leak handler on pools, collections and stacks replayed against Leak.lrun;
 process-wide report of the low-level allocators at exit."""
 import subprocess
-from vlib import build, runner
+from vlib import proc, build, runner
 from checks import poolgen
 
 
@@ -40,6 +40,9 @@ def gen_stack_script(rng):
             lines.append('an %d %d' % (rng.choice([1, 8, 24, 100, 300]), rng.choice([1, 8, 16]))); k += 1
         elif r < 0.6:
             lines.append('aa %d %d 8' % (rng.choice([1, 3, 7]), rng.choice([4, 8, 12]))); k += 1
+        elif r < 0.68:
+            # a request that cannot be served (larger than any block the stack may take) throws: it must not be counted
+            lines.append(rng.choice(['an %d 8' % rng.choice([1 << 20, 1 << 24]), 'aa 4096 4096 8']))
         elif r < 0.85 and k:
             lines.append('%s %d' % ('dn', rng.randrange(k)))
         elif r < 0.93:
@@ -51,7 +54,7 @@ def gen_stack_script(rng):
     seen = set(); out = []; kinds = []
     for l in lines:
         t = l.split()
-        if t[0] in ('an', 'aa'):
+        if t[0] in ('an', 'aa') and not (int(t[1]) >= (1 << 20) or (t[0] == 'aa' and int(t[1]) * int(t[2]) >= (1 << 20))):
             kinds.append(t[0])
         if t[0] == 'dn':
             if t[1] in seen:
@@ -132,7 +135,7 @@ def run(ctx):
         for a in ('heap', 'malloc', 'new', 'virtual'):
             for (nalloc, nrel, size) in [(5, 3, 100), (4, 4, 10), (1, 0, 1), (7, 2, 33)] + ([(rng.randint(1, 30), 0, rng.randint(1, 5000)) for _ in range(6)] if thorough else []):
                 nrel = min(nrel, nalloc)
-                out = subprocess.run([exe, a, str(nalloc), str(nrel), str(size)], stdout=subprocess.PIPE, text=True).stdout
+                out = proc.run([exe, a, str(nalloc), str(nrel), str(size)], timeout=120).stdout
                 ll += 1
                 rep = [l for l in out.split('\n') if l.startswith('REPORT')]
                 per_node = (32 if (fence and a != 'virtual') else 0)
